@@ -432,10 +432,16 @@ def csv_triple():
             mk('c', 'str', ['a', 'B1'])]
 
 
-def structural_plus_cells(frame):
-    """Structural deviations + one cell deviation per column: together they
-    make every per-kind column selection observable."""
+def structural_plus_cells(frame, max_dtype=2):
+    """Structural deviations (at most max_dtype dtype changes per column) +
+    one cell deviation per column: together they make every per-kind column
+    selection observable."""
+    ndt = {}
     for d in structural_devs(frame):
+        if d[0] == 'dtype':
+            ndt[d[1]] = ndt.get(d[1], 0) + 1
+            if ndt[d[1]] > max_dtype:
+                continue
         yield d
     for ci, col in enumerate(frame):
         if col[1] not in FAM:
@@ -444,6 +450,10 @@ def structural_plus_cells(frame):
             if new is not None and new != col[2][0]:
                 yield ['cell', ci, 0, new]
                 break
+        if col[1] == 'float64' and col[2] and col[2][0] is not None:
+            # seen at the default precision but not at 2 / seen only at 10
+            yield ['cell', ci, 0, ['delta', 0.001]]
+            yield ['cell', ci, 0, ['delta', 1e-07]]
 
 
 # ------------------------------------------------------- histories (E3 layer)
